@@ -262,7 +262,7 @@ def mutate(js, rng):
         how = rng.choice(["malformed", "nonstring", "duplicate"])
         syms = list(n0["symbols"])
         if how == "malformed":
-            syms[rng.randrange(len(syms))] = rng.choice(["1abc", "a-b", "", "é", "a b", "a.b", " A"])
+            syms[rng.randrange(len(syms))] = rng.choice(["1abc", "a-b", "", "é", "a b", "a.b", " A", "A ", "CAF\u00c9", "na\u00efve", "A\u0660", "x\u00b2", "A\n", "_\u4e2d", "a\u0301", "B$"])
         elif how == "nonstring":
             syms[rng.randrange(len(syms))] = rng.choice([5, None, True, ["A"], 1.5])
         else:
